@@ -5,6 +5,7 @@ from .. import gen
 from .. import harness as H
 from .. import monitors
 from ..env import lerrors
+from .. import env
 from ..ref import ws as refws
 from ..ref import deflate_peer
 from . import c04
@@ -145,6 +146,10 @@ def cases(tier, seed, i, n):
         for bfault in ('eof', 'reset', 'protocol-error', 'server-close'):
             for astuck in ('app-send', 'app-ping', 'app-close'):
                 yield dict(kind='twoconn', bfault=bfault, astuck=astuck)
+        # persist() is an event iterator too: a long outage (more than a thousand consecutive failures of one kind)
+        # must keep producing events, never an exception
+        for how in ('refused', 'gai', 'eof-before-reply', 'reset-after-ready'):
+            yield dict(kind='persist-outage', how=how, attempts=1100 if how in ('refused', 'gai') else 150)
         if tier == 'thorough':
             for r in range(40):
                 yield dict(kind='real', mode=('rst', 'fin')[r % 2], off=r * 7 % 150, r=r)
@@ -201,6 +206,8 @@ def run_case(case, acc):
         return run_twoconn(case, acc)
     if k == 'addr-reconnect':
         return run_addr_reconnect(case, acc)
+    if k == 'persist-outage':
+        return run_persist_outage(case, acc)
     sc = SC[case['sc']]
     b = baseline(case['sc'])
     if k == 'point':
@@ -476,6 +483,61 @@ def run_twoconn(case, acc):
         acc.violation(key, 'C09 %s: B fault=%s while A is stuck in %s' % (key, bfault, astuck), case, detail)
     else:
         acc.cls('twoconn/%s/%s' % (bfault, astuck))
+
+
+def run_persist_outage(case, acc):
+    from .. import simnet
+    how = case['how']
+
+    def factory(_i):
+        if how == 'eof-before-reply':
+            return simnet.ScriptServer([('eof',)])
+        return simnet.ScriptServer([('hs', {}), ('err', 'reset')])
+
+    w = H.World(factory, addrs=[('refused', ('10.0.0.1', 80)), ('refused', ('2001:db8::2', 80, 0, 0))] if how == 'refused' else None,
+                gai_error=(how == 'gai'), budget=400000)
+
+    class Exit(object):
+        n = 0
+
+        def wait(self, d=None):
+            Exit.n += 1
+            return Exit.n >= case['attempts']
+
+        def is_set(self):
+            return Exit.n >= case['attempts']
+
+    names = {}
+    exc = None
+    n_events = 0
+    saved = env.HOOKS['random']
+    env.HOOKS['random'] = lambda: 0.999
+    try:
+        with simnet.Installed(w):
+            ws = env.WebSocket('ws://example.com/', proxies={})
+            try:
+                for ev in env.persist(ws, exit_event=Exit(), ping_rate=0):
+                    names[ev.name] = names.get(ev.name, 0) + 1
+                    n_events += 1
+                    if n_events > 20 * case['attempts']:
+                        break
+            except (simnet.Quiesced, simnet.BudgetExceeded) as e:
+                acc.inconclusive.append('persist outage: sim ended early %r' % (e,))
+                return
+            except Exception as e:   # noqa
+                exc = repr(e)
+    finally:
+        env.HOOKS['random'] = saved
+    acc.count2('oracle', 'persist_outage_attempts', names.get('connecting', 0))
+    key = None
+    if exc is not None:
+        key = 'exception-escaped-iterator:persist-after-%d-attempts' % (100 * (names.get('connecting', 0) // 100))
+    elif names.get('connecting', 0) < case['attempts'] - 1:
+        key = 'persist-ended-by-itself'
+    if key:
+        acc.violation(key, 'C09 %s: %s outage, %r' % (key, how, exc), case, dict(events=names, exc=exc))
+    else:
+        acc.cls('persist-outage/%s' % how)
 
 
 def run_addr_reconnect(case, acc):
